@@ -216,8 +216,58 @@ def r4_no_panic(ctx):
     ctx.floor('C15.R4', 'panic sites found elsewhere in pavex (positive control)', outside, 5)
 
 
+# calls that hand a string on without changing its value
+PURE_ACCESS = {'deref', 'deref_mut', 'as_ref', 'borrow', 'as_bytes', 'as_str', 'clone', 'to_owned', 'to_string', 'into', 'from', 'into_owned',
+               'as_deref', 'parse', 'map_err', 'branch', 'from_residual', 'into_bytes', 'into_string', 'into_boxed_str'}
+
+
+def r5_value_untouched(ctx):
+    ctx.rule('C15.R5', 'P7 provenance: in the path deserializer every value handed to str::parse or to a string/bytes visitor method derives from the '
+             'decoded parameter through value-preserving accessors only (deref/as_ref/as_bytes/clone/to_owned/..): no trimming, case folding, '
+             'replacing or splitting between what the client encoded and what the field receives.')
+    n = 0
+    for b in ctx.fb.bodies(CR):
+        if b.is_promoted or 'request::path::deserializer' not in b.nid:
+            continue
+        defs = Defs(b)
+        for bb, t in b.calls():
+            c = callee(t) or ''
+            if c == 'core::str::{impl str}::parse':
+                i = 0
+            elif c.startswith(('serde_core::de::Visitor::visit_', 'serde::de::Visitor::visit_')) and c.split('::')[-1] in (
+                    'visit_str', 'visit_borrowed_str', 'visit_string', 'visit_bytes', 'visit_borrowed_bytes', 'visit_byte_buf', 'visit_char'):
+                i = 1
+            else:
+                continue
+            if len(t['args']) <= i or op_place(t['args'][i]) is None:
+                continue
+            n += 1
+            sl, _ = backward_slice(b, op_place(t['args'][i])['l'], defs)
+            other = sorted({x for x, _, _ in slice_calls(sl) if x.split('::')[-1] not in PURE_ACCESS})
+            ctx.ob('C15.R5', 'untouched|%s|%s' % (b.nid.split('::')[-1].rstrip('>'), c.split('::')[-1]), not other, b.loc(bb, t),
+                   'value handed to %s derives from the decoded parameter through %s' % (c.split('::')[-1], other and ('a REWRITING call: %s' % other) or 'accessors only'))
+    ctx.floor('C15.R5', 'parse / string-visitor sites in the path deserializer', n, 20)
+    # JSON: the recursion limit of serde_json is what turns a deeply nested body into an error instead of a stack overflow
+    bad = []
+    uses = 0
+    for b in ctx.fb.bodies(CR):
+        if b.is_promoted:
+            continue
+        for bb, t in b.calls():
+            c = callee(t) or ''
+            if c.startswith('serde_json::'):
+                uses += 1
+                if c.split('::')[-1] == 'disable_recursion_limit':
+                    bad.append(b.loc(bb, t))
+    ctx.floor('C15.R5', 'serde_json calls in pavex (positive control)', uses, 2)
+    ctx.ob('C15.R5', 'json-recursion-limit-kept', not bad, bad[0] if bad else '',
+           'serde_json::Deserializer::disable_recursion_limit is called %d time(s) in pavex (a body nested deeper than the stack aborts the process instead '
+           'of yielding ExtractJsonBodyError)' % len(bad))
+
+
 def check(ctx):
     r1_decode_once(ctx)
     r2_typed_parse(ctx)
     r3_content_type(ctx)
     r4_no_panic(ctx)
+    r5_value_untouched(ctx)
